@@ -2,6 +2,7 @@
   C19 — Domain helpers obey their physical scaling and invariance laws.
 -/
 import GeonumModel.Lemmas.GradeAngle
+import GeonumModel.Lemmas.Exact
 
 set_option linter.unusedSectionVars false
 set_option linter.unusedVariables false
@@ -133,8 +134,68 @@ theorem tanh_bound {g : Geonum F} (hm : Fin g.mag) (h0 : 0 ≤ val g.mag) (ha : 
 
 end S
 
-/-! PARTIAL (E-tier, not yet proved): Snell `n·sin(t_out) = sin(t_in)`, magnification ∝ 1/m², inverse field ∝ q/rⁿ, wire ∝ 1/r,
-    area invariance under common translation/rotation and the shoelace formula.  Explored by `oracle.C19.laws`, `oracle.C19.area`. -/
+/-! ### E-tier: the physical laws in exact arithmetic -/
+section E
+open GeonumModel.Exact
+
+/-- (E) **Snell's law**: whenever `|sin t_in| ≤ n`, the refracted direction satisfies `n·sin(t_out) = sin(t_in)` to within
+    `n·1e-10` (the slack is the boundary snap of re-encoding the refracted angle) -/
+theorem snell_real {g n : Geonum ℝ} (hn : 0 < n.mag) (hdom : |Real.sin (T g.angle)| ≤ n.mag) :
+    |n.mag * Real.sin (T (Optics.refract g n).angle) - Real.sin (T g.angle)| ≤ n.mag * (1 / 10 ^ 10) := by
+  have hpi := Real.pi_pos
+  set q : ℝ := Real.sin (T g.angle) / n.mag with hq
+  have hq1 : |q| ≤ 1 := by rw [hq, abs_div, abs_of_pos hn, div_le_one hn]; exact hdom
+  set r : ℝ := Real.arcsin q with hr
+  have hsin : Real.sin r = q := Real.sin_arcsin (by rw [abs_le] at hq1; exact hq1.1) (by rw [abs_le] at hq1; exact hq1.2)
+  have hdef : (Optics.refract g n).angle = Angle.new r Real.pi := by
+    show Angle.new (FloatLike.asin (fdiv (FloatLike.sin g.angle.gradeAngle) n.mag)) (FloatLike.pi : ℝ) = _
+    have : FloatLike.sin g.angle.gradeAngle = Real.sin (T g.angle) := sin_gradeAngle g.angle
+    rw [this]; rfl
+  have hrabs : |r| ≤ Real.pi / 2 := by
+    rw [abs_le]; exact ⟨Real.neg_pi_div_two_le_arcsin q, Real.arcsin_le_pi_div_two q⟩
+  have hqq : r * Real.pi / Real.pi = r := by field_simp
+  have hb : |r * Real.pi / Real.pi| ≤ 2 ^ 42 := by
+    rw [hqq]; have := Real.pi_lt_four; have : Real.pi / 2 ≤ 2 ^ 42 := by norm_num; linarith
+    linarith
+  obtain ⟨_, δ, m, hδ, hT⟩ := new_total_real (p := r) (d := Real.pi) hb
+  rw [hqq] at hT
+  rw [hdef, hT, Real.sin_add_int_mul_two_pi]
+  have hl := sin_lipschitz r δ
+  have e : n.mag * Real.sin (r + δ) - Real.sin (T g.angle) = n.mag * (Real.sin (r + δ) - Real.sin r) := by
+    rw [hsin, hq]; field_simp
+  rw [e, abs_mul, abs_of_pos hn]
+  exact mul_le_mul_of_nonneg_left (le_trans hl (le_of_lt hδ)) (le_of_lt hn)
+
+/-- (E) magnification scales the intensity by `1/m²`: scaling the magnification by `s` divides the result's magnitude by `s²` -/
+theorem magnify_inverse_square (g m : Geonum ℝ) (s : ℝ) (hs : s ≠ 0) (hm : m.mag ≠ 0) :
+    (Optics.magnify g ⟨s * m.mag, m.angle⟩).mag * s ^ 2 = (Optics.magnify g m).mag := by
+  show g.mag * ((one : ℝ) / ((s * m.mag) * (s * m.mag))) * s ^ 2 = g.mag * ((one : ℝ) / (m.mag * m.mag))
+  rw [lit_real.2.1]; field_simp
+
+/-- (E) the wire field falls as `1/r`, and the inverse-power field is proportional to the charge -/
+theorem wire_and_charge_scaling (r cur perm q dist pw k : Geonum ℝ) (ang : Angle ℝ) (s : ℝ) (hs : s ≠ 0) (hr : r.mag ≠ 0) :
+    (EM.wireMagneticField ⟨s * r.mag, r.angle⟩ cur perm).mag * s = (EM.wireMagneticField r cur perm).mag ∧
+    (EM.inverseField ⟨s * q.mag, q.angle⟩ dist pw ang k).mag = s * (EM.inverseField q dist pw ang k).mag := by
+  have hpi : Real.pi ≠ 0 := Real.pi_ne_zero
+  constructor
+  · show perm.mag * cur.mag / ((two : ℝ) * (FloatLike.pi : ℝ) * (s * r.mag)) * s = perm.mag * cur.mag / ((two : ℝ) * (FloatLike.pi : ℝ) * r.mag)
+    rw [lit_real.2.2.1, pi_real]; field_simp
+  · show k.mag * (s * q.mag) / FloatLike.powf dist.mag pw.mag = s * (k.mag * q.mag / FloatLike.powf dist.mag pw.mag)
+    ring
+
+/-- (E) the inverse-power field scales as `1/rⁿ` in the distance (for positive distances and scale factors) -/
+theorem inverse_field_distance_scaling (q dist pw k : Geonum ℝ) (ang : Angle ℝ) (s : ℝ) (hs : 0 < s) (hd : 0 < dist.mag) :
+    (EM.inverseField q ⟨s * dist.mag, dist.angle⟩ pw ang k).mag * s ^ pw.mag = (EM.inverseField q dist pw ang k).mag := by
+  show k.mag * q.mag / (s * dist.mag) ^ pw.mag * s ^ pw.mag = k.mag * q.mag / dist.mag ^ pw.mag
+  rw [Real.mul_rpow (le_of_lt hs) (le_of_lt hd)]
+  have h1 : s ^ pw.mag ≠ 0 := ne_of_gt (Real.rpow_pos_of_pos hs _)
+  have h2 : dist.mag ^ pw.mag ≠ 0 := ne_of_gt (Real.rpow_pos_of_pos hd _)
+  field_simp
+
+end E
+
+/-! PARTIAL (not yet proved): quadrilateral area invariance under a common translation / rotation and the shoelace formula (needs the
+    Cartesian refinement of `+` composed with the wedge as a cross product).  Explored by `oracle.C19.area`. -/
 
 example {F : Type} [FloatSpec F] : (⟨one, ⟨zero, 1⟩⟩ : Geonum F).angle.Inv := inv_zero 1
 
